@@ -143,6 +143,11 @@ func ruleC10Order(c *ctx.Ctx, r *core.Reporter) {
 	if fd := c.FuncDecl("compiler", "ImportDependencies"); fd != nil {
 		checkImportDependencies(c, r, fd)
 	}
+	if ii := c.FuncDecl("compiler", "funcContext.importInitializer"); ii != nil {
+		r.Check(importInitWaits(ii), "init:importer-waits", c.Pos(ii.Pos()), "an importing package always waits for the $init of the imported one (the call is marked blocking and flattened unconditionally), so nothing overtakes an initialisation that suspends")
+	} else {
+		r.Undecided("init:importer-waits", "compiler/decls.go", "funcContext.importInitializer not found")
+	}
 	// GetSortedSources
 	if fd := c.FuncDecl("build", "Session.GetSortedSources"); fd != nil {
 		r.Check(strings.Contains(nodeString(c, fd.Body), "sources.SortedSourcesSlice(allSources)"), "sources:sorted-by-import-path", c.Pos(fd.Pos()), "the session hands sources to the compiler sorted by import path")
